@@ -105,7 +105,7 @@ def check_lm(r, k, mask, t, S, case, pre):
     st, lmap, _ = brun(dsw.accessor_to_latter_map, acc)
     if st != 'ok':
         return
-    st, a2, _ = brun(dsw.latter_map_to_accessor, lmap, k, threshold=t, lim=4000000)
+    st, a2, _ = brun(dsw.latter_map_to_accessor, lmap, k, threshold=t, lim=400 * (4 ** k) ** 2 + 20000)
     r.trans += 3
     r.evals += 1
     if st != 'ok':
@@ -131,7 +131,7 @@ def check_lm_history(r, k, mask):
     case = {'k': k, 'mask': sorted(mask)}
     for i, t in enumerate((4, 3, 2, 3)):
         S = O.gfp(mask, k, t)
-        st, a2, _ = brun(dsw.latter_map_to_accessor, lmap, k, threshold=t, lim=4000000)
+        st, a2, _ = brun(dsw.latter_map_to_accessor, lmap, k, threshold=t, lim=400 * (4 ** k) ** 2 + 20000)
         r.trans += 1
         r.evals += 1
         if st != 'ok' or U.rows(a2) != O.from_mask(S, k):
@@ -166,6 +166,9 @@ def _w_g2(chunk):
     lo, hi = chunk
     codes = {}
     for mcode in range(lo, hi):
+        if core.expired():
+            r.caps.append('deadline reached inside a chunk')
+            break
         mask = {i for i in range(16) if mcode >> i & 1}
         for t in (1, 2, 3, 4):
             S = O.gfp(mask, 2, t)
@@ -189,6 +192,9 @@ def _w_g2(chunk):
 def _w_list(chunk):
     r = core.Res()
     for k, mask, ts in chunk:
+        if core.expired():
+            r.caps.append('deadline reached inside a chunk')
+            break
         for t in ts:
             S = O.gfp(mask, k, t)
             check_mask(r, k, mask, t, 'bool', S, lm=(k <= 3))
@@ -313,7 +319,7 @@ def run(ctx):
     with mp.get_context('fork').Pool(core.NPROC) as pool:
         got = dict(pool.imap_unordered(core._call, [(i, name, c) for i, c in enumerate(chunks)], 1))
     for i in range(len(chunks)):
-        codes.update(got[i].codes)
+        codes.update(getattr(got[i], 'codes', None) or {})
         got[i].codes = None
         tot.merge(got[i])
     ctx.res.merge(tot)
